@@ -26,7 +26,7 @@ class FuelExhausted(BaseException):
 
 
 class _Clock:
-    __slots__ = ("now", "armed", "limit", "fault_at", "fault_exc", "fired", "known", "enabled")
+    __slots__ = ("now", "armed", "limit", "fault_at", "fault_exc", "fired", "known", "enabled", "entered", "site")
 
     def __init__(self):
         self.now = 0  # logical time: dep_logic function entries during client operations
@@ -37,6 +37,8 @@ class _Clock:
         self.fired = False
         self.known = {}
         self.enabled = False
+        self.entered = {}  # code object -> entries while a client operation was in flight
+        self.site = None  # qualified name of the function at whose entry the last fault fired
 
 
 CLOCK = _Clock()
@@ -63,7 +65,9 @@ def _on_py_start(code, offset):
     if not c.armed:
         return None
     c.now += 1
+    c.entered[code] = c.entered.get(code, 0) + 1
     if c.fault_at and c.now >= c.fault_at:
+        c.site = code.co_qualname
         exc = c.fault_exc
         c.fault_at = 0
         c.fault_exc = None
@@ -83,6 +87,15 @@ def clock_install():
     mon.register_callback(TOOL_ID, mon.events.PY_START, _on_py_start)
     mon.set_events(TOOL_ID, mon.events.PY_START)
     CLOCK.enabled = True
+
+
+def entered_summary():
+    out = {}
+    for code, n in CLOCK.entered.items():
+        mod = code.co_filename.rsplit("/dep_logic/", 1)[-1].removesuffix(".py").replace("/", ".")
+        key = f"{mod}:{code.co_qualname}"
+        out[key] = out.get(key, 0) + n
+    return out
 
 
 def clock_uninstall():
@@ -150,6 +163,10 @@ def _do(step, slots):
         return slots[step["a"]] | slots[step["b"]]
     if op == "reparse":
         return parse_marker(str(slots[step["a"]]))
+    if op == "echo":
+        # another party parses, as plain text, what the library rendered earlier (lock-file hand-over):
+        # the text was captured unarmed by run_steps; for the oracle this is parse(<that literal text>)
+        return parse_marker(step["_text"])
     raise AssertionError(op)
 
 
@@ -225,6 +242,13 @@ def run_steps(steps, envs, *, faults, fuel, use_clock=True, observe_ids=None, sh
             rec["status"] = "skipped"
             rec["clock"] = c.now
             continue
+        if op == "echo":
+            step = dict(step)
+            try:
+                step["_text"] = str(slots[step["a"]])
+            except Exception as e:  # noqa: BLE001
+                step["_text"] = "<str raised %s>" % type(e).__name__
+            rec["text"] = step["_text"]
         fault = step.get("fault") if faults else None
         if fault and "at" not in fault:
             # placement relative to the operation's own length in THIS state: a scout fork
@@ -266,6 +290,7 @@ def run_steps(steps, envs, *, faults, fuel, use_clock=True, observe_ids=None, sh
                     status = "aborted"
                     rec["fault"]["fired"] = True
                     rec["fault"]["clock"] = c.now
+                    rec["fault"]["site"] = c.site
                 else:
                     status = "raised"
                     rec["exc"] = type(e).__name__
@@ -308,6 +333,21 @@ def cone_of(steps_by_id, sid):
             if key in st and st["op"] in ("and", "or", "reparse"):
                 stack.append(st[key])
     return sorted(need)
+
+
+def concretise(steps, records):
+    """After the warm run: every echo step whose text is known becomes a plain parse of that literal
+    text (so cones, cold programs, minimisation and replay files only ever see parse/and/or/reparse)."""
+    texts = {r["id"]: r["text"] for r in records if "text" in r}
+    out = []
+    for st in steps:
+        if st["op"] == "echo" and st["id"] in texts:
+            st = {k: v for k, v in st.items() if k != "a"}
+            st["op"] = "parse"
+            st["text"] = texts[st["id"]]
+            st["echo"] = True
+        out.append(st)
+    return out
 
 
 def cold_program(steps_by_id, sid):
